@@ -82,7 +82,7 @@ PROPS = {
         "case_sets": ["compile"],
         "ops": ["COMPILE"],
         "oracle_clauses": [r"c01-.*", r"c05-lex", r"c05-parse", r"c05-brackets", r"c12-.*", r"unreadable-.*"],
-        "lean_targets": ["PqlModel.Props.C01"],
+        "lean_targets": ["PqlModel.Props.C01", "PqlModel.Props.C01LexRender"],
         "facts": ["binaryOps", "builtinIdentifiers", "knownFunctions", "writerArityGuard", "maybeParenBare", "precedence"],
         "rule": "COMPILE: hand-written corpus of expression shapes (parentheses, signs, index, in, every built-in as operand of "
                 "every operator class) + grammar-generated programs with expressions in every position; the oracle re-reads "
